@@ -28,8 +28,8 @@ type Thread struct {
 	// nothing else can run while a non-daemon thread is unfinished ("eventually the timeout comes").
 	timeoutOK bool
 	timedOut  bool
-	Panic   any
-	Stack   string
+	Panic     any
+	Stack     string
 }
 
 // PointInfo describes one choice point (two or more threads enabled).
